@@ -24,6 +24,8 @@ def main():
     try:
         if a.prop in SESSION:
             import check_session as M
+        elif a.prop == 'C04':
+            import check_framing as M
         else:
             print('unknown property %s' % a.prop, file=sys.stderr)
             return 2
